@@ -3,10 +3,10 @@
 # REPO and BUILD can be overridden (the sensitivity scripts point REPO at a
 # scratch worktree and BUILD at a scratch build directory).
 REPO    ?= /repo
-BUILD   ?= /verif/build
+BUILD   ?= $(abspath $(dir $(lastword $(MAKEFILE_LIST))))/build
 VARIANT ?= asan
 B       := $(BUILD)/$(VARIANT)
-SIM     := /verif/sim
+SIM     := $(abspath $(dir $(lastword $(MAKEFILE_LIST))))/sim
 
 CCACHE  := $(shell command -v ccache 2>/dev/null)
 export CCACHE_DIR ?= /verif/build/ccache
